@@ -17,6 +17,7 @@ package lightnode
 import (
 	"encoding/json"
 	"fmt"
+	"hash/crc32"
 	"strings"
 	"testing"
 	"time"
@@ -371,10 +372,14 @@ func (w *world) do(act string, a args) outcome {
 			if err != nil {
 				panic(err)
 			}
+			named := contracts[a.K]
+			if dissent && i == 0 && (a.K == 1 || a.K == 2) {
+				named = contracts[3-a.K]
+			}
 			txs = append(txs, e.SignTx(v.Acc, &skywaytypes.MsgLightNodeSaleClaim{
 				Metadata:   valsettypes.MsgMetadata{Creator: v.Acc.Bech32(), Signers: []string{v.Acc.Bech32()}},
 				EventNonce: n + 1, EthBlockHeight: 1000 + n + 1, Orchestrator: v.Acc.Bech32(), ChainReferenceId: chain, SkywayNonce: n + 1,
-				ClientAddress: w.addr(a.C).String(), Amount: math.NewInt(int64(a.Amt)), SmartContractAddress: contracts[a.K], CompassId: w.ew.CompassOf(chain)}))
+				ClientAddress: w.addr(a.C).String(), Amount: math.NewInt(int64(a.Amt)), SmartContractAddress: named, CompassId: w.ew.CompassOf(chain)}))
 		}
 		res, err := e.DeliverBlock(txs)
 		if err != nil {
@@ -467,7 +472,23 @@ func TestDriveLightNode(t *testing.T) {
 	t.Logf("%d histories in %v", len(hs), time.Since(t0))
 }
 
+// dissent: in this history the FIRST validator to report a sale names the other sale contract than the remaining
+// validators (whose report is the one the generated Sale step stands for and who hold more than 66% of the power).
+// The chain must act on what the quorum reported, so nothing observable changes. Which histories run that way is a
+// function of the history itself (stable under sampling and replay).
+var dissent bool
+
+func historyDissent(h drv.History) bool {
+	c := crc32.NewIEEE()
+	for _, s := range h.Steps {
+		c.Write([]byte(s.Act))
+		c.Write(s.Args)
+	}
+	return c.Sum32()%2 == 1
+}
+
 func runHistory(t *testing.T, em *drv.Emitter, h drv.History) {
+	dissent = historyDissent(h)
 	w := newWorld()
 	defer w.e.Close()
 	steps := h.Steps
